@@ -141,7 +141,8 @@ def tvl_any(self, axis=None, builtins=None):
         args = (self,)                  # make a copy
 
     elif isinstance(self._mask_, (bool, np.bool_)):
-        args = (np.any(self._values_, axis=axis), self._mask_)
+        args = (np.any(self._values_, axis=axis),
+                bool(self._mask_) and self._size_ > 0)
 
     else:
         # True where any value is True AND its antimask is True
@@ -191,7 +192,8 @@ def tvl_all(self, axis=None, builtins=None):
         args = (self,)                  # make a copy
 
     elif isinstance(self._mask_, (bool, np.bool_)):
-        args = (np.all(self._values_, axis=axis), self._mask_)
+        args = (np.all(self._values_, axis=axis),
+                bool(self._mask_) and self._size_ > 0)
 
     else:
         # False where any value is False AND its antimask is True
